@@ -273,6 +273,8 @@ def raw_config(cfg):
     office = cfg["office"]
     aggs = ["postal_code", "county_classification", "county_fips", "unit"]
     fes = ["postal_code", "county_fips", "county_classification"]
+    if cfg.get("district_column") and not is_district_office(office):
+        aggs.insert(3, "district")  # a statewide office whose units carry a district column (e.g. votes allocated to districts)
     if is_district_office(office):
         aggs.insert(3, "district")
         fes.append("district")
@@ -311,7 +313,7 @@ def frames(units, cfg):
     """(baseline DataFrame, feed DataFrame) sorted by unit id unless cfg['row_order'] = {'baseline': mode, 'feed': mode}."""
     import pandas as pd
 
-    district = is_district_office(cfg["office"])
+    district = is_district_office(cfg["office"]) or bool(cfg.get("district_column"))
     brow, frow = [], []
     for u in sorted(units, key=lambda u: u["id"]):
         if u["in_baseline"]:
